@@ -19,6 +19,7 @@
 (*  pc          parked at                         code                     *)
 (*  "top"       label waitForHeaders passed       :528-559                 *)
 (*  "loop"      head of the checkpoint loop       :587 (retry sleeps)      *)
+(*  "resolve"   lists fetched, before the cap     :629                     *)
 (*  "r_cfh"     resolveConflict, getcfheaders     :1509 -> :1877           *)
 (*  "r_flt"     resolveConflict, getcfilters      :1532 -> :1635 -> :1916  *)
 (*  "r_blk"     resolveConflict, GetBlock         :1670                    *)
@@ -29,10 +30,17 @@
 (*              getUncheckpointedCFHeaders        :781 / :805              *)
 (*  "dead"      the process panicked                                       *)
 (*                                                                         *)
-(* Code-version switch:                                                    *)
+(* Code-version switches (the spec follows the code):                      *)
 (*   FixCPNoPanic  getCheckpointedCFHeaders returns instead of panicking   *)
 (*                 when a stop header is gone or writeCFHeadersMsg fails   *)
 (*                 (both happen after a reorganisation during the fetch)   *)
+(*   FixURecheck   getUncheckpointedCFHeaders re-examines a disputed       *)
+(*                 height until the peers that are left agree on it        *)
+(*                 (detectBadPeers returns after its first finding)        *)
+(*   FixChainCheck before detectBadPeers both callers make sure the stop   *)
+(*                 block of the cfheaders answers is still on the chain    *)
+(*   FixNoQueryNoBan  resolveConflict gives up, banning nobody, when the   *)
+(*                 getcfheaders request could not even be built            *)
 (***************************************************************************)
 EXTENDS Integers, Sequences, FiniteSets, TLC, Json, CFSyncProps
 
@@ -42,10 +50,13 @@ CONSTANTS NP,         \* number of peers
           MaxSteps,   \* handler steps per history
           MaxReorgs,  \* rollbacks per history
           MaxRb,      \* deepest rollback
+          RbDepths,   \* rollback depths explored (subset of 1..MaxRb)
+          EnvFree,    \* TRUE: block-handler steps at every gate; FALSE: rollbacks only once the
+                      \* handler has started, new headers only after a rollback or at the tip
           MaxExt,     \* header batches per history
           MaxExtN,    \* largest header batch
           Scen,       \* set of scenarios [asg, bt, ft, hard]
-          FixCPNoPanic
+          FixCPNoPanic, FixURecheck, FixChainCheck, FixNoQueryNoBan
 
 VARIABLES sc,      \* [asg, hard]  behaviour assignment, hard-coded checkpoint height (constant)
           bs,      \* block header store: block ids by height
@@ -133,8 +144,12 @@ H(pcn, cn, bn, gd, fsn, mfn, qn) ==
   /\ nh' = nh + 1
   /\ UNCHANGED <<sc, bs, memH, lastH, lastC, allp, cpc, nre, nex>>
 
-\* cfHandler after getCheckpointedCFHeaders returned (:668-684), block headers current.
-AfterCP(mf) == IF mf[1] + CPI <= memH[1] THEN "top" ELSE "tip"
+\* BlockHeadersSynced (:2274): no sync peer, no block checkpoints; the tip must
+\* be younger than 24 h, which holds for every block of the model but genesis.
+Synced == Len(bs) > 1
+
+\* cfHandler after getCheckpointedCFHeaders returned (:666-684).
+AfterCP(mf) == IF ~Synced \/ mf[1] + CPI <= memH[1] THEN "top" ELSE "tip"
 
 ----------------------------------------------------------------------------
 \* Checkpoint lists held by the handler, capped at lastH (:632-641).
@@ -184,8 +199,10 @@ Outcome(c, bn, x) ==
   LET hdS == SetOf(c.hd)
       X   == {y \in x..c.e : Mismatch(hdS, c.qc, y)}
   IN  IF X # {}
-      THEN LET y == MinOf(X) IN
-           IF y > Len(bs) - 1       \* detectBadPeers: FetchHeaderByHeight fails
+      THEN LET y == MinOf(X)
+               gone == FixChainCheck /\ (c.e + 1 > Len(bs) \/ bs[c.e + 1] # c.qc[c.e + 1])
+           IN
+           IF gone \/ y > Len(bs) - 1    \* re-org seen / detectBadPeers: FetchHeaderByHeight fails
            THEN [pc |-> IF c.mode = "r" THEN "loop" ELSE "tip", res |-> "err",
                  c |-> NoCtx, bn |-> bn, good |-> <<>>, w |-> 0]
            ELSE [pc |-> IF c.mode = "r" THEN "r_flt" ELSE "u_flt", res |-> "q_flt",
@@ -195,6 +212,16 @@ Outcome(c, bn, x) ==
                 [pc |-> IF e.res = "good" THEN "cp" ELSE "loop", res |-> e.res,
                  c |-> NoCtx, bn |-> e.bn, good |-> e.good, w |-> 0]
            ELSE [pc |-> "tip", res |-> "w", c |-> c, bn |-> bn, good |-> <<>>, w |-> 1]
+
+\* After detectBadPeers banned some peers: the scan moves on to the next
+\* height; the repaired getUncheckpointedCFHeaders looks at the same height
+\* again and gives up if no disagreeing peer was removed (rem = removed ones).
+Cont(c, bn, rem) ==
+  IF c.mode = "u" /\ FixURecheck
+  THEN IF rem = {}
+       THEN [pc |-> "tip", res |-> "err", c |-> NoCtx, bn |-> bn, good |-> <<>>, w |-> 0]
+       ELSE Outcome(c, bn, c.i)
+  ELSE Outcome(c, bn, c.i + 1)
 
 \* Which surviving message getUncheckpointedCFHeaders writes (:829): Go map
 \* order.  Only a real choice if the survivors still differ.
@@ -218,6 +245,7 @@ Apply(op, o, rs, n, lo, hi) ==
 \* cfHandler :564 - the handler reads the block tip it will sync to.
 Begin ==
   /\ pc = "top" /\ nh < MaxSteps
+  /\ (memF[1] + CPI <= memH[1] \/ Synced)        \* the wait loop :540
   /\ lastH' = Len(bs) - 1 /\ lastC' = bs
   /\ pc' = IF Len(bs) - 1 >= CPI THEN "loop" ELSE "cp"
   /\ good' = <<>> /\ nh' = nh + 1
@@ -229,13 +257,15 @@ GetCheckpts(rsS) ==
   /\ pc = "loop" /\ nh < MaxSteps /\ MinCP < lastH
   /\ rsS \in RSets("cp")
   /\ allp' = Flags(rsS) /\ cpc' = IF rsS = {} THEN <<>> ELSE lastC
+  /\ pc' = IF rsS = {} THEN "loop" ELSE "resolve"      \* :616 none: sleep, continue
   /\ nh' = nh + 1
-  /\ UNCHANGED <<sc, bs, fs, ban, memH, memF, pc, lastH, lastC, good, ctx, cpq, nre, nex>>
+  /\ UNCHANGED <<sc, bs, fs, ban, memH, memF, lastH, lastC, good, ctx, cpq, nre, nex>>
   /\ Fin(Act("GetCheckpts", IF rsS = {} THEN "none" ELSE "ok", SortedSeq(rsS), 0, 0, 0, 0, lastH))
 
-\* :629-658 cap, then resolveConflict up to its first gate.
+\* :629-658 cap, then resolveConflict up to its first gate (same loop
+\* iteration as the fetch, or directly if the cached lists reach lastHeight).
 RStart ==
-  /\ pc = "loop" /\ nh < MaxSteps /\ MinCP >= lastH
+  /\ (pc = "resolve" \/ (pc = "loop" /\ MinCP >= lastH)) /\ nh < MaxSteps
   /\ LET L   == LCap
          cp0 == IF L = 0 THEN {} ELSE SetOf(allp)
          hb  == {p \in cp0 : sc.hard > 0 /\ sc.hard <= L * CPI
@@ -253,7 +283,8 @@ RStart ==
           /\ Fin(Act("RStart", "good", <<>>, 0, 0, 0, 0, lastH))
      ELSE IF d * CPI > bt
      THEN \* getCFHeadersForAllPeers: stopHeight-height underflows, no query is sent
-          LET e == EndR([NoCtx EXCEPT !.mode = "r", !.cp = Flags(cp1)], bn1) IN
+          LET e == IF FixNoQueryNoBan THEN [res |-> "err", good |-> <<>>, bn |-> bn1]
+                   ELSE EndR([NoCtx EXCEPT !.mode = "r", !.cp = Flags(cp1)], bn1) IN
           /\ H(IF e.res = "good" THEN "cp" ELSE "loop", NoCtx, e.bn, e.good, fs, memF, cpq)
           /\ Fin(Act("RStart", e.res, <<>>, 0, 0, 0, 0, lastH))
      ELSE LET s == d * CPI
@@ -281,9 +312,9 @@ Flt(op, rsS) ==
       fl  == {p \in rsS : FOf(p, ctx.tb, ctx.i).srv}
       bad == {p \in hdS : p \notin fl \/ FOf(p, ctx.tb, ctx.i).hash # HashOf(p, ctx.qc, ctx.i)}
   IN  IF bad # {}
-      THEN Apply(op, Outcome([ctx EXCEPT !.hd = Flags(hdS \ bad),
-                                         !.cp = Flags(SetOf(ctx.cp) \ bad)],
-                             BanAdd(ban, bad), ctx.i + 1),
+      THEN Apply(op, Cont([ctx EXCEPT !.hd = Flags(hdS \ bad),
+                                      !.cp = Flags(SetOf(ctx.cp) \ bad)],
+                          BanAdd(ban, bad), hdS \cap bad),
                  SortedSeq(rsS), ctx.i, ctx.s, ctx.e)
       ELSE /\ H(IF ctx.mode = "r" THEN "r_blk" ELSE "u_blk", [ctx EXCEPT !.fl = Flags(fl)],
                 ban, <<>>, fs, memF, cpq)
@@ -302,9 +333,9 @@ Blk(op, ok) ==
   IN  IF fail
       THEN /\ H(IF ctx.mode = "r" THEN "loop" ELSE "tip", NoCtx, ban, <<>>, fs, memF, cpq)
            /\ Fin(Act(op, "err", <<>>, 0, 0, ok, ctx.s, ctx.e))
-      ELSE Apply(op, Outcome([ctx EXCEPT !.hd = Flags(SetOf(ctx.hd) \ bad),
-                                         !.cp = Flags(SetOf(ctx.cp) \ bad)],
-                             BanAdd(ban, bad), ctx.i + 1),
+      ELSE Apply(op, Cont([ctx EXCEPT !.hd = Flags(SetOf(ctx.hd) \ bad),
+                                      !.cp = Flags(SetOf(ctx.cp) \ bad)],
+                          BanAdd(ban, bad), SetOf(ctx.hd) \cap bad),
                  <<>>, ok, ctx.s, ctx.e)
 
 RFlt(rsS) == pc = "r_flt" /\ nh < MaxSteps /\ rsS \in RSets("flt") /\ Flt("RFlt", rsS)
@@ -444,6 +475,8 @@ UCfh(rsS) ==
 Rollback(h) ==
   /\ pc # "dead" /\ nh < MaxSteps /\ nre < MaxReorgs
   /\ h >= 0 /\ h < Len(bs) - 1 /\ Len(bs) - 1 - h <= MaxRb /\ h >= sc.hard
+  /\ (Len(bs) - 1 - h) \in RbDepths
+  /\ (EnvFree \/ nh >= 1)
   /\ bs' = SubSeq(bs, 1, h + 1)
   /\ fs' = IF Len(fs) > h + 1 THEN SubSeq(fs, 1, h + 1) ELSE fs
   /\ nre' = nre + 1
@@ -453,6 +486,7 @@ Rollback(h) ==
 Extend(n) ==
   /\ pc # "dead" /\ nh < MaxSteps /\ nex < MaxExt
   /\ n >= 1 /\ n <= MaxExtN /\ Len(bs) - 1 + n <= MaxH
+  /\ (EnvFree \/ nre >= 1 \/ pc = "tip")
   /\ LET bt == Len(bs) - 1 IN
      /\ bs' = bs \o [x \in 1..n |-> nre * 16 + bt + x]
      /\ memH' = <<bt + n, nre * 16 + bt + n>>
@@ -496,7 +530,7 @@ Spec == Init /\ [][Next]_vars
 
 ----------------------------------------------------------------------------
 TypeOK ==
-  /\ pc \in {"top", "loop", "r_cfh", "r_flt", "r_blk", "cp", "cp_wait", "tip",
+  /\ pc \in {"top", "loop", "resolve", "r_cfh", "r_flt", "r_blk", "cp", "cp_wait", "tip",
              "u_cfh", "u_flt", "u_blk", "dead"}
   /\ Len(bs) >= 1 /\ Len(bs) <= MaxH + 1
   /\ Len(fs) >= 1
